@@ -165,6 +165,17 @@ func c03Create(c *Ctx) {
 		if cc.IsInvoke() && cc.Method.Name() == "Sign" && len(cc.Args) == 3 {
 			mp := core.PathOf(cc.Args[1])
 			ok := mp.Root == reqAlloc && mp.HasFields("Bundle")
+			if !ok {
+				// the signed bytes are a local that is also what the request carries
+				bs := 0
+				for _, st := range storesToField(fn, "types.FetchNodeCredentialsRequest", "Bundle") {
+					if core.PathOf(st.Addr).Root == reqAlloc {
+						bs++
+						ok = core.Strip(st.Val) == core.Strip(cc.Args[1])
+					}
+				}
+				ok = ok && bs == 1
+			}
 			signed = true
 			// result stored to req.BundleSignature
 			sigStored := false
